@@ -350,12 +350,13 @@ Proof.
   apply lru_loop_tracks. exact Hw1.
 Qed.
 
-Lemma ctl_reload_tracks rules' tick c :
+Lemma ctl_reload_tracks rules' sent tick c :
+  (forall k, sent k = true) ->
   NoDup (map fst c) -> (forall k e, c_load c k = Some e -> ce_owner e = key_id k) ->
-  wtracks [] (ctl_reload rules' tick c).
+  wtracks [] (ctl_reload rules' sent tick c).
 Proof.
-  intros Hnd Hown. unfold ctl_reload. apply fold_left_inv.
-  - intros w [k e] Hin Hw. unfold wtracks in *. cbn [fst snd app] in *.
+  intros Hsent Hnd Hown. unfold ctl_reload. apply fold_left_inv.
+  - intros w [k e] Hin Hw. unfold wtracks in *. cbn [fst snd app] in *. rewrite Hsent.
     apply tracks_store; [exact Hw|].
     cbn [clone_for_reload ce_owner]. apply Hown. apply in_c_load; assumption.
   - unfold wtracks. cbn [fst snd app]. exact tracks_nil.
@@ -374,9 +375,9 @@ Proof. split; [exact tracks_nil|reflexivity]. Qed.
 Lemma run_app (h1 h2 : list op) : run (h1 ++ h2) = fold_left step h2 (run h1).
 Proof. unfold run. apply fold_left_app. Qed.
 
-Lemma ctl_step_inv cfg st o : ctl_inv st -> ctl_inv (ctl_step cfg st o).
+Lemma ctl_step_inv cfg st o : resync_delivered o -> ctl_inv st -> ctl_inv (ctl_step cfg st o).
 Proof.
-  intros [Ht Hr].
+  intros Hd [Ht Hr].
   assert (Hw : wtracks (if ef_new_generation (ctl_effect cfg st o) then [] else c_calls st)
                        (ef_work (ctl_effect cfg st o))).
   { destruct o; cbn [ctl_effect ef_new_generation ef_work].
@@ -396,10 +397,68 @@ Proof.
     + rewrite <- Hr. rewrite <- surjective_pairing. reflexivity.
 Qed.
 
-Lemma ctl_run_inv cfg rules ops : ctl_inv (ctl_run cfg rules ops).
+Lemma ctl_run_inv cfg rules ops : Forall resync_delivered ops -> ctl_inv (ctl_run cfg rules ops).
 Proof.
-  unfold ctl_run. apply fold_left_inv; [|apply ctl_init_inv].
-  intros st o _. apply ctl_step_inv.
+  intros Hd. unfold ctl_run. apply fold_left_inv; [|apply ctl_init_inv].
+  intros st o Hin. apply ctl_step_inv. rewrite Forall_forall in Hd. apply Hd. exact Hin.
+Qed.
+
+(* ------------------------------------------------------------------------------------------ *)
+(* the cache itself does not depend on which re-sync tasks were delivered                     *)
+(* ------------------------------------------------------------------------------------------ *)
+Definition deliver (o : ctl_op) : ctl_op :=
+  match o with OReload r _ => OReload r (fun _ => true) | _ => o end.
+
+Lemma deliver_delivered ops : Forall resync_delivered (map deliver ops).
+Proof.
+  apply Forall_forall. intros o Hin. apply in_map_iff in Hin. destruct Hin as [o' [Ho _]]. subst o.
+  destruct o'; cbn [deliver resync_delivered]; try exact I. intros k. reflexivity.
+Qed.
+
+Lemma fold_fst_indep {A} (f : cache -> A -> cache) (g1 g2 : work -> A -> list cache_op)
+      (l : list A) (w1 w2 : work) :
+  fst w1 = fst w2 ->
+  fst (fold_left (fun w x => (f (fst w) x, g1 w x)) l w1)
+  = fst (fold_left (fun w x => (f (fst w) x, g2 w x)) l w2).
+Proof.
+  revert w1 w2. induction l as [|x r IH]; intros w1 w2 H; cbn [fold_left]; [exact H|].
+  apply IH. cbn [fst]. rewrite H. reflexivity.
+Qed.
+
+Lemma ctl_reload_cache_indep (rules' : N -> N) (sent1 sent2 : ckey -> bool) (tick : N) (c : cache) :
+  fst (ctl_reload rules' sent1 tick c) = fst (ctl_reload rules' sent2 tick c).
+Proof.
+  unfold ctl_reload.
+  exact (fold_fst_indep
+           (fun c0 ke => c_store c0 (fst ke) (clone_for_reload rules' tick (snd ke)))
+           (fun w ke => snd w ++ (if sent1 (fst ke) then access_callback (clone_for_reload rules' tick (snd ke)) else []))
+           (fun w ke => snd w ++ (if sent2 (fst ke) then access_callback (clone_for_reload rules' tick (snd ke)) else []))
+           c ([], []) ([], []) eq_refl).
+Qed.
+
+Definition same_core (a b : ctl) : Prop :=
+  c_cache a = c_cache b /\ c_rules a = c_rules b /\ c_tick a = c_tick b.
+
+Lemma ctl_step_core cfg a b o : same_core a b -> same_core (ctl_step cfg a o) (ctl_step cfg b (deliver o)).
+Proof.
+  intros [Hc [Hr Ht]]. destruct a as [ca ra ta tra ka ha], b as [cb rb tb trb kb hb].
+  cbn [c_cache c_rules c_tick] in *. subst cb rb tb.
+  unfold same_core, ctl_step. cbn [c_cache c_rules c_tick].
+  destruct o; cbn [deliver ctl_effect ef_work ef_rules c_cache c_rules c_tick];
+    try (repeat split; reflexivity).
+  split; [|split; reflexivity].
+  apply ctl_reload_cache_indep.
+Qed.
+
+Lemma ctl_run_core cfg rules ops :
+  same_core (ctl_run cfg rules ops) (ctl_run cfg rules (map deliver ops)).
+Proof.
+  unfold ctl_run.
+  assert (H : forall a b, same_core a b ->
+                same_core (fold_left (ctl_step cfg) ops a) (fold_left (ctl_step cfg) (map deliver ops) b)).
+  { induction ops as [|o r IH]; intros a b Hab; cbn [fold_left map]; [exact Hab|].
+    apply IH. apply ctl_step_core. exact Hab. }
+  apply H. repeat split; reflexivity.
 Qed.
 
 (* ------------------------------------------------------------------------------------------ *)
@@ -442,13 +501,14 @@ Qed.
 (* ------------------------------------------------------------------------------------------ *)
 Lemma C10_ctl_calls_track_cache_proof :
   forall (cfg : config) (rules : N -> N) (ops : list ctl_op),
+    Forall resync_delivered ops ->
     let st := ctl_run cfg rules ops in
     (forall k, cache_live (c_calls st) (key_id k) = option_map ce_e (c_load (c_cache st) k)) /\
     (forall o, (forall k, key_id k <> o) -> cache_live (c_calls st) o = None) /\
     NoDup (map fst (c_cache st)) /\
     (c_tracker st, c_kmap st) = run (map op_of_cache_op (c_calls st)).
 Proof.
-  intros cfg rules ops st. destruct (ctl_run_inv cfg rules ops) as [[Hnd [Hown [Hlive Himg]]] Hr].
+  intros cfg rules ops Hd st. destruct (ctl_run_inv cfg rules ops Hd) as [[Hnd [Hown [Hlive Himg]]] Hr].
   fold st in Hnd, Hown, Hlive, Himg, Hr.
   split; [exact Hlive|]. split; [|split; [exact Hnd|exact Hr]].
   intros o Hno. destruct (cache_live (c_calls st) o) as [e|] eqn:Hl; [|reflexivity].
@@ -457,10 +517,11 @@ Qed.
 
 Lemma C10_ctl_mirror_proof :
   forall (cfg : config) (rules : N -> N) (ops : list ctl_op) (ip : N),
+    Forall resync_delivered ops ->
     let st := ctl_run cfg rules ops in
     c_kmap st ip = ctl_table_entry (c_cache st) ip.
 Proof.
-  intros cfg rules ops ip st. destruct (ctl_run_inv cfg rules ops) as [Ht Hr]. fold st in Ht, Hr.
+  intros cfg rules ops ip Hd st. destruct (ctl_run_inv cfg rules ops Hd) as [Ht Hr]. fold st in Ht, Hr.
   replace (c_kmap st) with (snd (run (map op_of_cache_op (c_calls st)))) by (rewrite <- Hr; reflexivity).
   rewrite C10_cache_mirror_proof. unfold cache_table_entry, ctl_table_entry.
   rewrite (tracks_table _ _ ip Ht). reflexivity.
@@ -474,7 +535,24 @@ Lemma C10_ctl_owner_key_scoped_proof :
     ce_owner e1 <> ce_owner e2 /\ ce_owner e1 = key_id k1 /\ ce_owner e2 = key_id k2.
 Proof.
   intros cfg rules ops k1 k2 e1 e2 st H1 H2 _ Hs.
-  destruct (ctl_run_inv cfg rules ops) as [[_ [Hown _]] _]. fold st in Hown.
+  destruct (ctl_run_core cfg rules ops) as [Hcore _]. fold st in Hcore. rewrite Hcore in H1, H2.
+  destruct (ctl_run_inv cfg rules (map deliver ops) (deliver_delivered ops)) as [[_ [Hown _]] _].
   rewrite (Hown k1 e1 H1), (Hown k2 e2 H2). split; [|split; reflexivity].
   intros E. apply key_id_inj in E. subst k2. apply Hs. reflexivity.
+Qed.
+
+(* The unconditional statement is false in the model: a reload whose re-sync task found the bounded
+   queue full leaves a live cache entry without its kernel table entry. *)
+Definition C10_ctl_mirror_full : Prop :=
+  forall (cfg : config) (rules : N -> N) (ops : list ctl_op) (ip : N),
+    let st := ctl_run cfg rules ops in
+    c_kmap st ip = ctl_table_entry (c_cache st) ip.
+
+Lemma C10_ctl_mirror_full_refuted_proof : ~ C10_ctl_mirror_full.
+Proof.
+  intros H.
+  specialize (H {| cf_optimistic := false; cf_opt_ttl := 0; cf_max := 0 |} (fun _ => 1)
+                [OInsert (response_cache_key 1 0) 1 [(true, 0xffff01020304)] 10 60;
+                 OReload (fun _ => 1) (fun _ => false)] 0xffff01020304).
+  vm_compute in H. discriminate H.
 Qed.
